@@ -136,7 +136,7 @@ impl<E: Eviction> crate::indexer::Indexer for VecIndexer<E> {
 }
 
 /// Recording event listener: fixed-size log, no allocation.
-pub const LOG_CAP: usize = 12;
+pub const LOG_CAP: usize = 4;
 pub struct EventLog {
     pub n: std::cell::Cell<usize>,
     pub ev: [std::cell::Cell<(u8, u64, u64)>; LOG_CAP],
@@ -157,6 +157,18 @@ impl EventLog {
             Event::Remove => 3,
             Event::Clear => 4,
         }
+    }
+    /// reason code of the first logged event with this (key, value); 0 if none
+    pub fn reason_of(&self, k: u64, v: u64) -> u8 {
+        let mut i = 0;
+        while i < self.n.get() {
+            let (r, kk, vv) = self.ev[i].get();
+            if kk == k && vv == v {
+                return r;
+            }
+            i += 1;
+        }
+        0
     }
     /// number of logged events with this (key, value)
     pub fn count_kv(&self, k: u64, v: u64) -> usize {
